@@ -224,7 +224,9 @@ class Queue(Greenlet):
         self.relay = relay
         self.backoff = backoff or self._default_backoff
         self.bounce_factory = bounce_factory or Bounce
-        self.bounce_queue = bounce_queue or self
+        # Not 'bounce_queue or self': a Queue is a Greenlet, which is falsy
+        # until it has been started.
+        self.bounce_queue = bounce_queue if bounce_queue is not None else self
         self.wake = Event()
         self.queued = []
         self.active_ids = set()
